@@ -32,7 +32,11 @@ def main():
     if not clean():
         sys.exit("refusing: scratch worktree is not clean")
     os.makedirs(SCRATCH, exist_ok=True)
-    env = dict(os.environ, VERIF_REPO=REPO, VERIF_SCRATCH=SCRATCH)
+    # the harness sources are snapshotted so that edits made while the matrix runs cannot break its builds
+    snap = os.path.join(SCRATCH, "harness")
+    sh("rm", "-rf", snap)
+    sh("cp", "-r", os.path.join(VERIF, "harness"), snap)
+    env = dict(os.environ, VERIF_REPO=REPO, VERIF_SCRATCH=SCRATCH, VERIF_HARNESS=snap)
     out_path = os.path.join(VERIF, "seeded", "MATRIX.json")
     matrix = json.load(open(out_path)) if os.path.exists(out_path) else {}
     for label in labels:
